@@ -22,6 +22,9 @@ def run(ctx):
     for inst in (["i1", "i4"] if ctx.thorough else ["i1"]):
         ctx.mc("MC_Par2Live", "MC_Par2Live_%s.cfg" % inst, "C14 convergence (leads-to under weak fairness of Repair), instance " + inst,
                workers=8, timeout=2400)
+    for inst in (["j1", "j2"] if ctx.thorough else ["j1"]):
+        ctx.mc("MC_Par1Live", "MC_Par1Live_%s.cfg" % inst, "C14 convergence for PAR1 (leads-to under weak fairness of Repair), instance " + inst,
+               workers=8, timeout=2400)
     if ctx.selftest:
         # non-vacuity: without fairness the same property must be violated
         r = vlib.tlc(ctx.work.sub("mc-live-nofair"), "MC_Par2Live", "MC_Par2Live_nofair.cfg", workers=4, timeout=900)
